@@ -70,6 +70,10 @@ type plan struct {
 	limit      s1.ChordAngle
 	interiors  bool
 	brute      bool
+	nilOpts    bool // the query under test is built with nil options (the reference with explicit defaults)
+	tgt        []s2.Point // vertices of the small polyline used as ShapeIndex target
+	polyMulti  bool // invert mode: the polygon has several disjoint shells
+	polyQ      []s2.Point // invert mode: a small loop inside the first shell (relation queries)
 	// standalone loop / polygon for the invert alphabet
 	loopVs []s2.Point
 	other  []s2.Point
@@ -131,13 +135,22 @@ func genPlan(r *rand.Rand) *plan {
 		in := gen.StarLoop(r, gen.Near(r, pl.center, sp.RMin*0.3*r.Float64()), 4+r.Intn(40), sp.RMin*0.2, sp.RMin*0.5)
 		pl.other = in.Vs
 		pl.polyLs = [][]s2.Point{sp.Vs, in.Vs}
+		qc := pl.center // centre of the small polygon used for relation queries: inside the hole
+		if r.Intn(2) == 0 { // several disjoint shells, the first one optionally with a hole
+			pl.polyMulti = true
+			isl := gen.Islands(r, pl.center, pl.scale, 2+r.Intn(3))
+			pl.polyLs = isl
+			x, y, z := gen.Frame(pl.center)
+			qc = gen.AtPolar(x, y, z, pl.scale, 2*math.Pi*float64(r.Intn(len(isl)))/float64(len(isl))) // centre of one of the shells
+		}
+		pl.polyQ = gen.StarLoop(r, qc, 3+r.Intn(5), pl.scale*1e-3, pl.scale*2e-3).Vs
 		for i := 0; i < 10; i++ {
 			pl.probes = append(pl.probes, pt())
 		}
 		pl.probes = append(pl.probes, gen.BoundaryProbes(r, sp.Vs, 6)...)
 		steps := 4 + r.Intn(10)
 		for s := 0; s < steps; s++ {
-			k := []string{"invertloop", "loopq", "looprel", "invertpoly", "polyq", "invertloop", "loopq"}[r.Intn(7)]
+			k := []string{"invertloop", "loopq", "looprel", "invertpoly", "polyq", "invertloop", "loopq", "polyrel", "invertpoly", "polyrel"}[r.Intn(10)]
 			pl.ops = append(pl.ops, op{kind: k, p: pl.probes[r.Intn(len(pl.probes))]})
 		}
 		return pl
@@ -153,6 +166,11 @@ func genPlan(r *rand.Rand) *plan {
 	}
 	pl.interiors = r.Intn(2) == 0
 	pl.brute = r.Intn(5) == 0
+	if r.Intn(4) == 0 { // nil options == explicit defaults
+		pl.nilOpts, pl.maxResults, pl.limit, pl.interiors, pl.brute = true, math.MaxInt32, s1.InfChordAngle(), true, false
+	}
+	tp := pt()
+	pl.tgt = []s2.Point{tp, gen.Near(r, tp, pl.scale*0.1), gen.Near(r, tp, pl.scale*0.2)}
 	steps := 4 + r.Intn(13)
 	nextAdd := 0
 	for s := 0; s < steps; s++ {
@@ -172,7 +190,7 @@ func genPlan(r *rand.Rand) *plan {
 		case k == 8:
 			o = op{kind: "ceq", p: pt(), q: pt()}
 		default:
-			o = op{kind: []string{"find", "dist", "less", "conservative", "find"}[r.Intn(5)], p: pt(), q: pt(), tk: r.Intn(3), far: r.Intn(4) == 0}
+			o = op{kind: []string{"find", "dist", "less", "conservative", "find"}[r.Intn(5)], p: pt(), q: pt(), tk: r.Intn(4), far: r.Intn(4) == 0}
 			o.lim = s1.ChordAngleFromAngle(s1.Angle(pl.scale * 3 * r.Float64()))
 			if r.Intn(4) == 0 {
 				o.lim = s1.ChordAngle(r.Float64() * 4)
@@ -199,7 +217,13 @@ type eqHolder struct {
 	far bool
 }
 
-func (pl *plan) newEQ(idx *s2.ShapeIndex, far bool) *s2.EdgeQuery {
+func (pl *plan) newEQ(idx *s2.ShapeIndex, far bool, reference bool) *s2.EdgeQuery {
+	if pl.nilOpts && !reference {
+		if far {
+			return s2.NewFurthestEdgeQuery(idx, nil)
+		}
+		return s2.NewClosestEdgeQuery(idx, nil)
+	}
 	if far {
 		o := s2.NewFurthestEdgeQueryOptions().MaxResults(pl.maxResults).IncludeInteriors(pl.interiors).UseBruteForce(pl.brute)
 		return s2.NewFurthestEdgeQuery(idx, o)
@@ -216,8 +240,13 @@ func resStr(rs []s2.EdgeQueryResult) string {
 	return sb.String()
 }
 
-func edgeQuery(q *s2.EdgeQuery, o op, what string) string {
+func edgeQuery(q *s2.EdgeQuery, o op, what string, tgt []s2.Point) string {
 	e := s2.Edge{V0: o.p, V1: o.q}
+	var tidx *s2.ShapeIndex
+	if o.tk == 3 {
+		tidx = s2.NewShapeIndex()
+		tidx.Add(s2.LaxPolylineFromPoints(append([]s2.Point(nil), tgt...)))
+	}
 	call := func(find func() []s2.EdgeQueryResult, dist func() s1.ChordAngle, less func() bool, cons func() bool) string {
 		switch what {
 		case "find":
@@ -237,6 +266,9 @@ func edgeQuery(q *s2.EdgeQuery, o op, what string) string {
 		case 1:
 			t := func() *s2.MaxDistanceToEdgeTarget { return s2.NewMaxDistanceToEdgeTarget(e) }
 			return call(func() []s2.EdgeQueryResult { return q.FindEdges(t()) }, func() s1.ChordAngle { return q.Distance(t()) }, func() bool { return q.IsDistanceGreater(t(), o.lim) }, func() bool { return q.IsConservativeDistanceGreaterOrEqual(t(), o.lim) })
+		case 3:
+			t := func() *s2.MaxDistanceToShapeIndexTarget { return s2.NewMaxDistanceToShapeIndexTarget(tidx) }
+			return call(func() []s2.EdgeQueryResult { return q.FindEdges(t()) }, func() s1.ChordAngle { return q.Distance(t()) }, func() bool { return q.IsDistanceGreater(t(), o.lim) }, func() bool { return q.IsConservativeDistanceGreaterOrEqual(t(), o.lim) })
 		}
 		t := func() *s2.MaxDistanceToCellTarget { return s2.NewMaxDistanceToCellTarget(o.cell) }
 		return call(func() []s2.EdgeQueryResult { return q.FindEdges(t()) }, func() s1.ChordAngle { return q.Distance(t()) }, func() bool { return q.IsDistanceGreater(t(), o.lim) }, func() bool { return q.IsConservativeDistanceGreaterOrEqual(t(), o.lim) })
@@ -247,6 +279,9 @@ func edgeQuery(q *s2.EdgeQuery, o op, what string) string {
 		return call(func() []s2.EdgeQueryResult { return q.FindEdges(t()) }, func() s1.ChordAngle { return q.Distance(t()) }, func() bool { return q.IsDistanceLess(t(), o.lim) }, func() bool { return q.IsConservativeDistanceLessOrEqual(t(), o.lim) })
 	case 1:
 		t := func() *s2.MinDistanceToEdgeTarget { return s2.NewMinDistanceToEdgeTarget(e) }
+		return call(func() []s2.EdgeQueryResult { return q.FindEdges(t()) }, func() s1.ChordAngle { return q.Distance(t()) }, func() bool { return q.IsDistanceLess(t(), o.lim) }, func() bool { return q.IsConservativeDistanceLessOrEqual(t(), o.lim) })
+	case 3:
+		t := func() *s2.MinDistanceToShapeIndexTarget { return s2.NewMinDistanceToShapeIndexTarget(tidx) }
 		return call(func() []s2.EdgeQueryResult { return q.FindEdges(t()) }, func() s1.ChordAngle { return q.Distance(t()) }, func() bool { return q.IsDistanceLess(t(), o.lim) }, func() bool { return q.IsConservativeDistanceLessOrEqual(t(), o.lim) })
 	}
 	t := func() *s2.MinDistanceToCellTarget { return s2.NewMinDistanceToCellTarget(o.cell) }
@@ -356,14 +391,20 @@ func oneHistory(c *mon.Case) {
 			}
 			q := eqs[o.far]
 			if q == nil {
-				q = pl.newEQ(idx, o.far)
+				q = pl.newEQ(idx, o.far, false)
 				eqs[o.far] = q
 			}
 			built, addedSinceBuild = true, false
 			f, _ := fresh()
-			fq := pl.newEQ(f, o.far)
-			got := edgeQuery(q, o, o.kind)
-			want := edgeQuery(fq, o, o.kind)
+			fq := pl.newEQ(f, o.far, true)
+			got := edgeQuery(q, o, o.kind, pl.tgt)
+			want := edgeQuery(fq, o, o.kind, pl.tgt)
+			if o.tk == 3 {
+				c.Count("ops.index_target", 1)
+			}
+			if pl.nilOpts {
+				c.Count("ops.nil_options_query", 1)
+			}
 			c.Count("queries.compared", 1)
 			if o.kind == "find" && thresholdBeforeFind[o.far] {
 				c.Count("ops.findedges_after_threshold", 1)
@@ -411,6 +452,20 @@ func invertHistory(c *mon.Case, pl *plan) {
 		return p
 	}
 	poly := mkPoly(false)
+	// the same region built without ever calling Invert: reversing one outermost shell complements the
+	// parity of every point, and PolygonFromLoops works out the nesting again
+	mkPolyNoInvert := func(inv bool) *s2.Polygon {
+		var ls []*s2.Loop
+		for i, l := range pl.polyLs {
+			vs := append([]s2.Point(nil), l...)
+			if inv && i == 0 {
+				vs = gen.Reversed(vs)
+			}
+			ls = append(ls, s2.LoopFromPoints(vs))
+		}
+		return s2.PolygonFromLoops(ls)
+	}
+	polyQ := s2.PolygonFromLoops([]*s2.Loop{s2.LoopFromPoints(append([]s2.Point(nil), pl.polyQ...))})
 	loopInv, polyInv := false, false
 	queried := false
 	var done []string
@@ -463,14 +518,24 @@ func invertHistory(c *mon.Case, pl *plan) {
 			}
 		case "polyq":
 			queried = true
-			fp := mkPoly(polyInv)
+			fp, fn := mkPoly(polyInv), mkPolyNoInvert(polyInv)
 			for _, p := range pl.probes {
-				if g, w := poly.ContainsPoint(p), fp.ContainsPoint(p); g != w {
-					report("Polygon.ContainsPoint", fmt.Sprint(g), fmt.Sprint(w))
+				if g, w, w2 := poly.ContainsPoint(p), fp.ContainsPoint(p), fn.ContainsPoint(p); g != w || g != w2 {
+					report("Polygon.ContainsPoint", fmt.Sprint(g), fmt.Sprint(w, w2))
 					break
 				}
 			}
 			c.Count("queries.compared", 1)
+		case "polyrel":
+			queried = true
+			fn := mkPolyNoInvert(polyInv)
+			g := fmt.Sprint(poly.Contains(polyQ), poly.Intersects(polyQ), polyQ.Contains(poly), polyQ.Intersects(poly))
+			w := fmt.Sprint(fn.Contains(polyQ), fn.Intersects(polyQ), polyQ.Contains(fn), polyQ.Intersects(fn))
+			c.Count("queries.compared", 1)
+			c.Count("ops.polygon_relation", 1)
+			if g != w {
+				report("Polygon.Contains/Intersects", g, w)
+			}
 		}
 		done = append(done, o.kind)
 	}
